@@ -110,7 +110,7 @@ def validate_joe_trace(ctx, trace, tag):
     """Validates one trace file against JoeTrace.tla.  Returns (ok, rejection text, TLCResult).
     The identities are the driver's fixed universe (given as explicit constants: TLC would otherwise
     re-evaluate them from the trace in every state)."""
-    consts = {"Subs": set(SUBS), "Pubs": set(PUBS), "Downs": set(DOWNS), "None": NONE, "PubAfter": pub_after(), "WithReplayer": True}
+    consts = {"Subs": set(SUBS), "Pubs": set(PUBS), "Downs": set(DOWNS), "None": NONE, "PubAfter": pub_after(), "WithReplayer": True, "RCap": 0}
     tag = re.sub(r"[^A-Za-z0-9_]", "_", tag)
     d = core.write_mc(ctx, "JT_" + tag, "JoeTrace", consts, spec="Spec", invariants=TRACE_INVS, constraint="HighWater", postcondition="Accepted")
     env = {"TRACE": trace, "JAVA_TOOL_OPTIONS": "-Dtlc2.tool.queue.IStateQueue=StateDeque"}
@@ -143,9 +143,9 @@ def fn(d):
 
 
 def tlc_joe_mc(ctx, name, *, subs, pubs, downs, sub_topics, pub_topics, last_ids, pub_after, faults, cancel_subs, ctx_downs=(),
-               with_replayer=True, liveness=False, timeout=3000, safety=MC_SAFETY):
+               with_replayer=True, liveness=False, timeout=3000, safety=MC_SAFETY, rcap=0):
     consts = {"Subs": set(subs), "Pubs": set(pubs), "Downs": set(downs), "None": NONE,
-              "PubAfter": fn({p: pub_after.get(p, NONE) for p in pubs}), "WithReplayer": with_replayer,
+              "PubAfter": fn({p: pub_after.get(p, NONE) for p in pubs}), "WithReplayer": with_replayer, "RCap": rcap,
               "SubTopics": fn({s: set(sub_topics[s]) for s in subs}), "PubTopics": fn({p: set(pub_topics[p]) for p in pubs}),
               "LastIDs": fn({s: last_ids.get(s, NONE) for s in subs}), "FaultBudget": faults,
               "CancelSubs": set(cancel_subs), "CtxDowns": set(ctx_downs)}
@@ -164,6 +164,9 @@ MC_CONFIGS = {
     "resume": (dict(**S2, pubs=["p1", "p2", "p3"], pub_topics={"p1": ["a", "b"], "p2": ["b"], "p3": ["a"]}, downs=[],
                     last_ids={"s1": "p1", "s2": "p2"}, pub_after={"p2": "p1"}, cancel_subs=["s1"], faults=0),
                "2 resuming subscribers presenting the IDs of p1 / p2 racing 3 publishes (p1 then p2 by one publisher, p3 concurrently)"),
+    "resume-evicting": (dict(**S2, pubs=["p1", "p2", "p3"], pub_topics={"p1": ["a", "b"], "p2": ["a", "b"], "p3": ["a"]}, downs=[],
+                             last_ids={"s1": "p1", "s2": "p2"}, pub_after={"p2": "p1", "p3": "p2"}, cancel_subs=[], faults=0, rcap=2),
+                        "as 'resume' with a replayer that holds only the last 2 messages (a presented ID may have been evicted by the time of the replay)"),
     "faults": (dict(**S2, **P2, downs=[], last_ids={"s2": "p1"}, pub_after={"p2": "p1"}, cancel_subs=["s1", "s2"], faults=1),
                "as 'order' without Shutdown, plus one failing Send / Flush / Put / Replay (error or panic) anywhere, racing cancellations"),
     "shutdown": (dict(subs=["s1", "s2"], sub_topics={"s1": ["a"], "s2": ["a"]}, pubs=["p1"], pub_topics={"p1": ["a"]}, downs=["k1", "k2"],
@@ -275,7 +278,7 @@ def run_C03(ctx):
 
 def run_C04(ctx):
     agg = new_agg()
-    model_check(ctx, ["resume"] if ctx.quick else ["resume", "big-faults"], agg)
+    model_check(ctx, ["resume", "resume-evicting"] if ctx.quick else ["resume", "resume-evicting", "big-faults"], agg)
     trace_check(ctx, "resume", 500 if ctx.quick else 6000, "resume", agg)
     joe_evidence(ctx, agg, "Resume / NoDuplicates and the replay guards (a replayed Send must be the next missed event) over all interleavings of Subscribe with concurrent "
                  "Publish calls; traces with the real FiniteReplayer / ValidReplayer behind a recording wrapper, both ID modes; " + COMMON_RULE,
